@@ -266,6 +266,24 @@ def constructed(rng):
         k = rng.randrange(5)
         lit = (blk + "12", "0." + blk + "5", "7" + blk, "0 0 0 0 7", "12345678" + blk)[k]
         out.append("%s %s" % (rng.choice(OPS), E.hexs(lit)))
+    # every continuation-byte value 0x80..0xBF in 2-, 3- and 4-byte UTF-8 characters, at every lane of a digit block
+    # (byte tricks that classify a byte by a few of its bits accept some of them as digits)
+    for b in range(0x80, 0xC0):
+        chars = []
+        for raw in (bytes((rng.choice((0xC2, 0xC3, 0xDF)), b)), bytes((0xE1, b, b)), bytes((0xF1, b, b, b)),
+                    bytes((rng.choice((0xF1, 0xF2, 0xF3)), b, rng.randrange(0x80, 0xC0), b))):
+            try:
+                chars.append(raw.decode("utf-8"))
+            except UnicodeDecodeError:
+                pass
+        for ch in chars:
+            n = len(ch.encode())
+            lane = rng.randrange(0, 9 - n)
+            blk = "12345678"
+            body = blk[:lane] + ch + blk[lane + n:]
+            k = rng.randrange(4)
+            lit = (body, "1234" + ch, "0." + body + "5", "9" * 8 + body)[k]
+            out.append("%s %s" % (rng.choice(OPS), E.hexs(lit)))
     # exponents that wrap a 32- or 64-bit accumulator back into the valid range: k * 2^w + small
     for w in (32, 63, 64, 128):
         for k in (1, 2, 10, 1 << 20):
